@@ -1196,6 +1196,7 @@ impl<K: AsRef<Key>> SigningContext<K> {
         );
         if let Err(err) = res {
             return Err(ServerError::unsigned(match err {
+                ValidationError::BadSig => TsigRcode::BADSIG,
                 ValidationError::BadTrunc => TsigRcode::BADTRUNC,
                 ValidationError::BadKey => TsigRcode::BADKEY,
                 _ => TsigRcode::FORMERR,
